@@ -181,7 +181,8 @@ NoMenu2(x, y) == {}
 
 \* single-shot calls (section 6): the same parameters as the streaming sender, one message
 ShotMsgs == {<<PtOfN(0), AadOfN(0)>>, <<PtOfN(1), AadOfN(1)>>}
-MC_ShotSMenu(cx) ==
+MC_ShotSMenu(cx, sh) ==
+    IF ShotsOnly /\ sh # <<>> THEN {} ELSE       \* one single-shot message per behaviour is enough there
     (IF "s" \in DOMAIN cx
      THEN {[p |-> cx["s"].origin, pt |-> m[1], aad |-> m[2]] : m \in ShotMsgs} ELSE {})
     \cup (IF ShotsOnly THEN {[p |-> p, pt |-> PtOfN(0), aad |-> AadOfN(0)] : p \in SenderParams} ELSE {})
